@@ -24,7 +24,19 @@ const Rule = "one op = one slice handed to one sort. Comparison sorts get key:id
 	"is visible; radix sorts get 64-bit words (every byte position and both signs) or byte strings over " +
 	"{00,61,62,7f,80,fe,ff} with shared prefixes. non-trivial = some op of the case had >= 2 elements not already in " +
 	"order and, for MSD / 3-way radix sorts, more than CUTOFF+1 = 16 elements in the range (a counting or " +
-	"partitioning pass ran); distinct = distinct (header, op list)"
+	"partitioning pass ran); distinct = distinct (header, op list). Threshold sweeps (gsort / gselect / gshuffle / glsdstring: the op " +
+	"carries length, value mix and seed, harness and Lean driver expand it with the same splitmix64 generator and print a digest of the " +
+	"result): every sort, Select (k = 0, n-1, n/2, 63, 64, 255, 256 and just outside the range) and Shuffle at 0, 1, 2, 63-65, 255-257, " +
+	"1023-1025 and 65536 + one of 65535/65537/70000 elements (thorough: all four, every mix); mixes: all equal, ascending, descending, three " +
+	"keys, random, sawtooth, organ pipe, magnitudes up to 2^61 (elements) / every bit pattern, extremes and powers of two, -20..20, one " +
+	"16-bit window varying, only the top 16 bits varying (words) / common prefixes of 0, 1, 2, 63-65, 255-257, 300 bytes of 00 / ff / 'a' " +
+	"with short tails, chains of prefixes, all equal (strings; LSDString: width w at those sizes). Code paths that are quadratic in Go " +
+	"itself (Selection; Insertion on unsorted input; the unshuffled quick sorts on sorted input) stop at 1025 (thorough 4097) elements. " +
+	"Oracle only (hx NoModel, counted in oracle_only_cases): Quick / Select on sorted inputs above 4097 elements (their Models run without " +
+	"the shuffle and are quadratic there) - judged by 'sorted by the comparator AND a permutation of the input' / 'an element of rank k'. " +
+	"Merge / MergeRec: the driver runs the Model with an in-place copy of the merged range (proved equal: C07_driver_merge_is_model_merge). sub / alias: a sort handed a window a[lo:hi] of a larger backing array, then a " +
+	"second, overlapping window of the same array (elements outside a window must stay, the window must be the sorted permutation of what it " +
+	"held); `sort <algo>` without elements also sorts the nil slice"
 
 type elem struct{ k, id int }
 
@@ -321,6 +333,652 @@ func shareTopBytes(a []uint64, lo, hi, d int) bool {
 	return true
 }
 
+// ---------------------------------------------------------------- generated inputs (threshold sweeps)
+//
+// A slice of 65 536 elements is several megabytes as text. The sweep ops therefore carry a *description* of the input
+// (length, value mix, seed) that the harness and the Lean driver expand with the same generator (splitmix64 below),
+// and print a digest of the result: `ok n=<len> h=<fnv-1a over the 64-bit words of the result>`.
+
+type sm64 struct{ s uint64 }
+
+func (g *sm64) next() uint64 {
+	g.s += 0x9E3779B97F4A7C15
+	z := g.s
+	z = (z ^ (z >> 30)) * 0xBF58476D1CE4E5B9
+	z = (z ^ (z >> 27)) * 0x94D049BB133111EB
+	return z ^ (z >> 31)
+}
+
+// genElems: key:id elements, id = index. Two words are drawn first, one per element then (whatever the mix).
+func genElems(n int, mix string, seed uint64) ([]elem, bool) {
+	g := &sm64{seed}
+	g.next()
+	g.next()
+	out := make([]elem, n)
+	for i := range out {
+		rnd := g.next()
+		var k int
+		switch mix {
+		case "eq":
+			k = 7
+		case "asc":
+			k = i
+		case "desc":
+			k = n - i
+		case "few":
+			k = int(rnd % 3)
+		case "rand":
+			k = int(rnd%uint64(2*n+1)) - n
+		case "saw":
+			k = i % 17
+		case "organ":
+			k = min(i, n-1-i)
+		case "big": // magnitudes up to 2^61, both signs
+			k = int(int64(rnd) >> 2)
+		default:
+			return nil, false
+		}
+		out[i] = elem{k, i}
+	}
+	return out, true
+}
+
+var genSpecials = []uint64{0, 1, 1<<63 - 1, 1 << 63, 1<<64 - 1, 1<<63 + 1, 1<<64 - 2, 1 << 55, 1<<55 - 1, 1 << 56, 1 << 48, 1 << 16, 1<<16 - 1,
+	255, 256, 1 << 32, 1<<63 + 1<<55}
+
+// genWords: 64-bit patterns; signed: the sorted mixes ascend / descend in the int order.
+func genWords(n int, mix string, seed uint64, signed bool) ([]uint64, bool) {
+	g := &sm64{seed}
+	c0, c1 := g.next(), g.next()
+	out := make([]uint64, n)
+	step := ^uint64(0) / uint64(max(n, 1))
+	var flip uint64
+	if signed {
+		flip = 1 << 63
+	}
+	for i := range out {
+		rnd := g.next()
+		var v uint64
+		switch mix {
+		case "eq":
+			v = c0
+		case "asc":
+			v = (uint64(i) * step) ^ flip
+		case "desc":
+			v = (uint64(n-1-i) * step) ^ flip
+		case "full": // every bit pattern: both signs, magnitudes up to 2^63-1 / 2^64-1
+			v = rnd
+		case "ext": // extremes and powers of two, many duplicates
+			v = genSpecials[rnd%uint64(len(genSpecials))]
+		case "small": // -20 … 20
+			v = rnd%41 - 20
+		case "dig": // one 16-bit window (any bit offset) varies, everything else is fixed
+			sh := c1 % 49
+			v = (c0 &^ (0xffff << sh)) | ((rnd & 0xffff) << sh)
+		case "hi": // only the 16 most significant bits vary
+			v = rnd<<48 | (c0 & 0xffff)
+		default:
+			return nil, false
+		}
+		out[i] = v
+	}
+	return out, true
+}
+
+var genAlpha = []byte{0x00, 0x61, 0x62, 0xfe, 0xff}
+
+// genStrs: byte strings sharing a prefix of up to L bytes (mostly one of 0x00 / 0xff / 'a', so that the recursion on
+// equal characters goes L deep), with tails of 0-3 bytes over {00,61,62,fe,ff}.
+func genStrs(n int, mix string, seed uint64, L int) ([]string, bool) {
+	g := &sm64{seed}
+	c0, c1 := g.next(), g.next()
+	fill := []byte{0x00, 0xff, 0x61}[c0%3]
+	P := make([]byte, L)
+	for j := range P {
+		P[j] = fill
+		if (c1>>(uint(j)%64))&1 == 1 {
+			P[j] = genAlpha[j%5]
+		}
+	}
+	tail := func(rnd uint64, t int) []byte {
+		b := make([]byte, t)
+		for k := range b {
+			b[k] = genAlpha[(rnd>>(8*uint(k+1)))%5]
+		}
+		return b
+	}
+	out := make([]string, n)
+	for i := range out {
+		rnd := g.next()
+		var b []byte
+		switch mix {
+		case "eq":
+			b = P
+		case "pre":
+			b = append(append([]byte{}, P...), tail(rnd, int(rnd%4))...)
+		case "chain": // prefixes of each other, lengths 0 … L
+			b = P[:rnd%uint64(L+1)]
+		case "rand":
+			b = tail(rnd, int(rnd%5))
+		case "fix": // exactly L bytes
+			t := min(L, 3)
+			b = append(append([]byte{}, P[:L-t]...), tail(rnd, t)...)
+		case "fixlong": // L bytes and up to 2 more
+			t := min(L, 3)
+			b = append(append(append([]byte{}, P[:L-t]...), tail(rnd, t)...), tail(rnd>>32, int(rnd%3))...)
+		default:
+			return nil, false
+		}
+		out[i] = string(b)
+	}
+	return out, true
+}
+
+const fnvOffset, fnvPrime = 0xcbf29ce484222325, 0x100000001b3
+
+func digestElems(a []elem) uint64 {
+	h := uint64(fnvOffset)
+	for _, e := range a {
+		h = (h ^ uint64(e.k)) * fnvPrime
+		h = (h ^ uint64(e.id)) * fnvPrime
+	}
+	return h
+}
+
+func digestWords[T int | uint](a []T) uint64 {
+	h := uint64(fnvOffset)
+	for _, v := range a {
+		h = (h ^ uint64(v)) * fnvPrime
+	}
+	return h
+}
+
+func digestStrs(a []string) uint64 {
+	h := uint64(fnvOffset)
+	for _, s := range a {
+		for i := 0; i < len(s); i++ {
+			h = (h ^ uint64(s[i])) * fnvPrime
+		}
+		h = (h ^ 0x1ff) * fnvPrime
+	}
+	return h
+}
+
+func showDigest(n int, h uint64) string { return fmt.Sprintf("ok n=%d h=%016x", n, h) }
+
+func sortElems(algo string, a []elem, cmp generic.CompareFunc[elem]) bool {
+	switch algo {
+	case "selection":
+		sort.Selection(a, cmp)
+	case "insertion":
+		sort.Insertion(a, cmp)
+	case "shell":
+		sort.Shell(a, cmp)
+	case "merge":
+		sort.Merge(a, cmp)
+	case "mergerec":
+		sort.MergeRec(a, cmp)
+	case "quick3way":
+		sort.Quick3Way(a, cmp)
+	case "heap":
+		sort.Heap(a, cmp)
+	case "quickcore":
+		sort.VerifQuickNoShuffle(a, cmp)
+	case "quick":
+		sort.Quick(a, cmp)
+	default:
+		return false
+	}
+	return true
+}
+
+func sortWords(algo string, a []uint64) bool {
+	switch algo {
+	case "lsduint", "msduint":
+		u := make([]uint, len(a))
+		for i, v := range a {
+			u[i] = uint(v)
+		}
+		if algo == "lsduint" {
+			radixsort.LSDUint(u)
+		} else {
+			radixsort.MSDUint(u)
+		}
+		for i, v := range u {
+			a[i] = uint64(v)
+		}
+	case "lsdint", "msdint":
+		u := make([]int, len(a))
+		for i, v := range a {
+			u[i] = int(v)
+		}
+		if algo == "lsdint" {
+			radixsort.LSDInt(u)
+		} else {
+			radixsort.MSDInt(u)
+		}
+		for i, v := range u {
+			a[i] = uint64(v)
+		}
+	default:
+		return false
+	}
+	return true
+}
+
+func isWordAlgo(algo string) bool {
+	return algo == "lsduint" || algo == "msduint" || algo == "lsdint" || algo == "msdint"
+}
+func isStrAlgo(algo string) bool  { return algo == "msdstring" || algo == "q3string" }
+func signedAlgo(algo string) bool { return algo == "lsdint" || algo == "msdint" }
+
+func wordLess(signed bool) func(a, b uint64) bool {
+	if signed {
+		return func(a, b uint64) bool { return int64(a) < int64(b) }
+	}
+	return func(a, b uint64) bool { return a < b }
+}
+
+// firstUnsorted: the first index whose element is smaller than its predecessor, or -1
+func firstUnsorted[T any](a []T, less func(x, y T) bool) int {
+	for i := 1; i < len(a); i++ {
+		if less(a[i], a[i-1]) {
+			return i
+		}
+	}
+	return -1
+}
+
+// judgeWords: `got` is the input in native order (sorted AND a permutation, reported separately)
+func judgeWords(algo string, in, got []uint64, signed bool) string {
+	less := wordLess(signed)
+	if i := firstUnsorted(got, less); i >= 0 {
+		return fmt.Sprintf("%s: result is not in native order at index %d (%d-element slice): %#x before %#x", algo, i, len(got), got[i-1], got[i])
+	}
+	if !sameMultiset(in, got) {
+		return fmt.Sprintf("%s: result is not a permutation of the %d-element input", algo, len(in))
+	}
+	return ""
+}
+
+func judgeStrs(algo string, in, got []string) string {
+	if i := firstUnsorted(got, func(x, y string) bool { return x < y }); i >= 0 {
+		return fmt.Sprintf("%s: result is not in native order at index %d (%d-element slice)", algo, i, len(got))
+	}
+	if !sameMultiset(in, got) {
+		return fmt.Sprintf("%s: result is not a permutation of the %d-element input", algo, len(in))
+	}
+	return ""
+}
+
+func judgeElems(algo string, in, got []elem, cmp generic.CompareFunc[elem]) string {
+	if i := firstUnsorted(got, func(x, y elem) bool { return cmp(x, y) < 0 }); i >= 0 {
+		return fmt.Sprintf("%s: result is not sorted by the comparator at index %d (%d-element slice)", algo, i, len(got))
+	}
+	if !sameMultiset(in, got) {
+		return fmt.Sprintf("%s: result is not a permutation of the %d-element input", algo, len(in))
+	}
+	return ""
+}
+
+// runGen: gsort <algo> <n> <mix> <seed> [<L>] | gselect <k> <n> <mix> <seed> | gshuffle <n> <seed> | glsdstring <w> <n> <mix> <seed>
+func runGen(cmpName string, f []string) opResult {
+	cmp := cmpOf(cmpName)
+	r := opResult{out: "bad-op"}
+	atoi := func(s string) (int, bool) { v, err := strconv.Atoi(s); return v, err == nil }
+	seedOf := func(s string) (uint64, bool) { v, err := strconv.ParseUint(s, 10, 64); return v, err == nil }
+	sizeTag := func(n int) {
+		switch {
+		case n >= 65535:
+			r.tags = append(r.tags, "len>=65535")
+		case n >= 1023:
+			r.tags = append(r.tags, "len>=1023")
+		case n >= 255:
+			r.tags = append(r.tags, "len>=255")
+		case n >= 63:
+			r.tags = append(r.tags, "len>=63")
+		}
+	}
+	switch {
+	case f[0] == "gsort" && len(f) >= 5:
+		algo, mix := f[1], f[3]
+		n, ok1 := atoi(f[2])
+		seed, ok2 := seedOf(f[4])
+		if !ok1 || !ok2 || n < 0 {
+			return r
+		}
+		r.tags = append(r.tags, "algo="+algo, "mix="+mix)
+		sizeTag(n)
+		switch {
+		case isWordAlgo(algo):
+			in, ok := genWords(n, mix, seed, signedAlgo(algo))
+			if !ok {
+				return r
+			}
+			a := append([]uint64{}, in...)
+			sortWords(algo, a)
+			r.out = showDigest(n, digestWords(toUints(a)))
+			r.bad = judgeWords(algo, in, a, signedAlgo(algo))
+			r.nontrivial = n >= 2 && firstUnsorted(in, wordLess(signedAlgo(algo))) >= 0 && (strings.HasPrefix(algo, "lsd") || n > 16)
+		case isStrAlgo(algo) && len(f) >= 6:
+			L, ok3 := atoi(f[5])
+			if !ok3 || L < 0 {
+				return r
+			}
+			in, ok := genStrs(n, mix, seed, L)
+			if !ok {
+				return r
+			}
+			a := append([]string{}, in...)
+			if algo == "msdstring" {
+				radixsort.MSDString(a)
+			} else {
+				radixsort.Quick3WayString(a)
+			}
+			r.out = showDigest(n, digestStrs(a))
+			r.bad = judgeStrs(algo, in, a)
+			r.nontrivial = n > 16 && inversions(in, cmpOrd[string])
+			if L >= 63 {
+				r.tags = append(r.tags, "common-prefix>=63")
+			}
+		default:
+			in, ok := genElems(n, mix, seed)
+			if !ok {
+				return r
+			}
+			a := append([]elem{}, in...)
+			if !sortElems(algo, a, cmp) {
+				return r
+			}
+			if algo == "quick" {
+				r.out = showDigest(n, digestElems(canonRuns(cmp, a)))
+			} else {
+				r.out = showDigest(n, digestElems(a))
+			}
+			r.bad = judgeElems(algo, in, a, cmp)
+			r.nontrivial = n >= 2 && inversions(in, cmp)
+		}
+	case f[0] == "gselect" && len(f) >= 5:
+		k, ok0 := atoi(f[1])
+		n, ok1 := atoi(f[2])
+		seed, ok2 := seedOf(f[4])
+		in, ok := genElems(n, f[3], seed)
+		if !ok0 || !ok1 || !ok2 || !ok {
+			return r
+		}
+		r.tags = append(r.tags, "algo=select", "mix="+f[3])
+		sizeTag(n)
+		if k < 0 || k >= n {
+			r.tags = append(r.tags, "select-k-out-of-range")
+		}
+		a := append([]elem{}, in...)
+		v := sort.Select(a, k, cmp) // panics for k outside [0,n)
+		r.out = "ok " + strconv.Itoa(cls(cmpName, v.k))
+		r.bad = judgeSelect(in, a, v, k, cmp)
+		r.nontrivial = n >= 2
+	case f[0] == "gshuffle" && len(f) >= 3:
+		n, ok1 := atoi(f[1])
+		seed, ok2 := seedOf(f[2])
+		if !ok1 || !ok2 || n < 0 {
+			return r
+		}
+		g := &sm64{seed}
+		cs := make([]int, n)
+		in := make([]elem, n)
+		for i := range cs {
+			cs[i] = int(g.next() % uint64(n-i))
+			in[i] = elem{i % 5, i}
+		}
+		if !scriptedOK(n, cs) {
+			r.out = "bad-op scripted source does not reproduce the choices"
+			return r
+		}
+		r.tags = append(r.tags, "algo=shuffle")
+		sizeTag(n)
+		a := append([]elem{}, in...)
+		sort.Shuffle(a, rand.New(&scripted{vals: cs}))
+		r.out = showDigest(n, digestElems(a))
+		if !sameMultiset(in, a) {
+			r.bad = "shuffle: result is not a permutation of the input"
+		}
+		r.nontrivial = n >= 2 && !eqSlices(in, a)
+	case f[0] == "glsdstring" && len(f) >= 5:
+		w, ok0 := atoi(f[1])
+		n, ok1 := atoi(f[2])
+		seed, ok2 := seedOf(f[4])
+		if !ok0 || !ok1 || !ok2 || w < 0 {
+			return r
+		}
+		in, ok := genStrs(n, f[3], seed, w)
+		if !ok || (f[3] != "fix" && f[3] != "fixlong" && f[3] != "eq") { // the other mixes produce keys shorter than w
+			return r
+		}
+		r.tags = append(r.tags, "algo=lsdstring", "mix="+f[3])
+		sizeTag(n)
+		if w >= 63 {
+			r.tags = append(r.tags, "lsdstring-w>=63")
+		}
+		a := append([]string{}, in...)
+		radixsort.LSDString(a, w)
+		r.out = showDigest(n, digestStrs(a))
+		want := append([]string{}, in...)
+		gosort.SliceStable(want, func(i, j int) bool { return want[i][:w] < want[j][:w] })
+		if !eqSlices(a, want) {
+			r.bad = fmt.Sprintf("lsdstring: result is not the stable sort by the first %d bytes (%d-element slice)", w, n)
+		}
+		r.nontrivial = n >= 2 && w >= 1 && inversions(in, cmpOrd[string])
+	}
+	return r
+}
+
+func toUints(a []uint64) []uint {
+	u := make([]uint, len(a))
+	for i, v := range a {
+		u[i] = uint(v)
+	}
+	return u
+}
+
+func judgeSelect(in, a []elem, v elem, k int, cmp generic.CompareFunc[elem]) string {
+	less, leq, found := 0, 0, false
+	for _, x := range in {
+		if cmp(x, v) < 0 {
+			less++
+		}
+		if cmp(x, v) <= 0 {
+			leq++
+		}
+		if x == v {
+			found = true
+		}
+	}
+	switch {
+	case !found:
+		return "select: result is not an element of the input"
+	case !(less <= k && k < leq):
+		return fmt.Sprintf("select: result has %d smaller and %d smaller-or-equal elements, so it is not of rank %d", less, leq, k)
+	case !sameMultiset(in, a):
+		return "select: the slice is no longer a permutation of the input"
+	}
+	return ""
+}
+
+// ---------------------------------------------------------------- sub-slices of one backing array
+//
+//	sub   <algo> <lo> <hi> e…              sorts a[lo:hi] (capacity reaching to the end of a); prints all of a
+//	alias <algo> <lo1> <hi1> <lo2> <hi2> e…  sorts a[lo1:hi1], then the overlapping a[lo2:hi2]; prints all of a
+//
+// Elements outside the sub-slice must stay what they were, the sub-slice must come out sorted and a permutation of
+// what it held. For the word sorts e… are decimal words, for the string sorts x<hex>.
+
+func runSub(cmpName string, f []string) opResult {
+	cmp := cmpOf(cmpName)
+	r := opResult{out: "bad-op"}
+	algo := f[1]
+	nr := 2
+	if f[0] == "alias" {
+		nr = 4
+	}
+	if len(f) < 2+nr {
+		return r
+	}
+	var rg []int
+	for _, w := range f[2 : 2+nr] {
+		v, err := strconv.Atoi(w)
+		if err != nil {
+			return r
+		}
+		rg = append(rg, v)
+	}
+	rest := f[2+nr:]
+	r.tags = append(r.tags, "algo="+algo, "sub-slice")
+	if f[0] == "alias" {
+		r.tags = append(r.tags, "aliased-sub-slices")
+	}
+	inRange := func(n int) bool {
+		for i := 0; i < len(rg); i += 2 {
+			if rg[i] < 0 || rg[i] > rg[i+1] || rg[i+1] > n {
+				return false
+			}
+		}
+		return true
+	}
+	switch {
+	case isWordAlgo(algo):
+		signed := signedAlgo(algo)
+		var a []uint64
+		if signed {
+			in, ok := parseInts(rest)
+			if !ok {
+				return r
+			}
+			for _, v := range in {
+				a = append(a, uint64(v))
+			}
+		} else {
+			in, ok := parseUints(rest)
+			if !ok {
+				return r
+			}
+			for _, v := range in {
+				a = append(a, uint64(v))
+			}
+		}
+		if a == nil {
+			a = []uint64{}
+		}
+		// the radix sorts take []int / []uint: the backing array is converted once, the sub-slices alias it
+		var show func() string
+		var step func(lo, hi int)
+		if signed {
+			b := make([]int, len(a))
+			for i, v := range a {
+				b[i] = int(v)
+			}
+			step = func(lo, hi int) {
+				if algo == "lsdint" {
+					radixsort.LSDInt(b[lo:hi])
+				} else {
+					radixsort.MSDInt(b[lo:hi])
+				}
+				for i, v := range b {
+					a[i] = uint64(v)
+				}
+			}
+			show = func() string { return showInts(b) }
+		} else {
+			b := make([]uint, len(a))
+			for i, v := range a {
+				b[i] = uint(v)
+			}
+			step = func(lo, hi int) {
+				if algo == "lsduint" {
+					radixsort.LSDUint(b[lo:hi])
+				} else {
+					radixsort.MSDUint(b[lo:hi])
+				}
+				for i, v := range b {
+					a[i] = uint64(v)
+				}
+			}
+			show = func() string { return showUints(b) }
+		}
+		for i := 0; i < len(rg) && r.bad == ""; i += 2 {
+			before := append([]uint64{}, a...)
+			step(rg[i], rg[i+1])
+			if inRange(len(a)) {
+				r.bad = checkSub(before, a, rg[i], rg[i+1], func(x, y []uint64) string { return judgeWords(algo, x, y, signed) })
+			}
+		}
+		r.out = show()
+		r.nontrivial = len(a) >= 2
+	case isStrAlgo(algo):
+		a, ok := parseStrs(rest)
+		if !ok {
+			return r
+		}
+		for i := 0; i < len(rg) && r.bad == ""; i += 2 {
+			before := append([]string{}, a...)
+			if algo == "msdstring" {
+				radixsort.MSDString(a[rg[i]:rg[i+1]])
+			} else {
+				radixsort.Quick3WayString(a[rg[i]:rg[i+1]])
+			}
+			if inRange(len(a)) {
+				r.bad = checkSub(before, a, rg[i], rg[i+1], func(x, y []string) string { return judgeStrs(algo, x, y) })
+			}
+		}
+		r.out = showStrs(a)
+		r.nontrivial = len(a) >= 2
+	default:
+		a, ok := parseElems(rest)
+		if !ok {
+			return r
+		}
+		for i := 0; i < len(rg) && r.bad == ""; i += 2 {
+			before := append([]elem{}, a...)
+			if !sortElems(algo, a[rg[i]:rg[i+1]], cmp) {
+				return r
+			}
+			if inRange(len(a)) {
+				r.bad = checkSub(before, a, rg[i], rg[i+1], func(x, y []elem) string { return judgeElems(algo, x, y, cmp) })
+			}
+		}
+		if algo == "quick" { // the order inside runs of comparator-equal elements depends on the clock-seeded shuffle
+			r.out = showElems("ok", canonRunsIn(cmp, a, rg))
+		} else {
+			r.out = showElems("ok", a)
+		}
+		r.nontrivial = len(a) >= 2
+	}
+	if r.bad != "" {
+		r.bad = f[0] + " " + r.bad
+	}
+	return r
+}
+
+// canonRunsIn canonicalises the runs of comparator-equal elements inside the last sorted range (the ranges of an
+// `alias` op overlap, so the first one is no longer a sorted block afterwards) — used for the public Quick only, whose
+// `alias` form is generated with nested ranges (the second contains the first).
+func canonRunsIn(cmp generic.CompareFunc[elem], a []elem, rg []int) []elem {
+	lo, hi := rg[len(rg)-2], rg[len(rg)-1]
+	out := append([]elem{}, a...)
+	copy(out[lo:hi], canonRuns(cmp, a[lo:hi]))
+	return out
+}
+
+func checkSub[T comparable](before, after []T, lo, hi int, judge func(in, got []T) string) string {
+	for i := range before {
+		if (i < lo || i >= hi) && before[i] != after[i] {
+			return fmt.Sprintf("of [%d:%d]: element %d outside the sub-slice changed", lo, hi, i)
+		}
+	}
+	if msg := judge(before[lo:hi], after[lo:hi]); msg != "" {
+		return fmt.Sprintf("of [%d:%d]: %s", lo, hi, msg)
+	}
+	return ""
+}
+
 // runOp executes one op line on the real code. It may panic (caught by the caller).
 func runOp(cmpName string, line string) opResult {
 	f := strings.Fields(line)
@@ -330,10 +988,29 @@ func runOp(cmpName string, line string) opResult {
 		return r
 	}
 	switch {
+	case f[0] == "gsort" || f[0] == "gselect" || f[0] == "gshuffle" || f[0] == "glsdstring":
+		return runGen(cmpName, f)
+	case (f[0] == "sub" || f[0] == "alias") && len(f) >= 4:
+		return runSub(cmpName, f)
 	case f[0] == "sort" && len(f) >= 2:
 		algo := f[1]
 		rest := f[2:]
 		r.tags = append(r.tags, "algo="+algo)
+		if len(rest) == 0 { // the nil slice as well as the empty one
+			r.tags = append(r.tags, "nil-slice")
+			switch {
+			case isWordAlgo(algo):
+				radixsort.LSDInt(nil)
+				radixsort.LSDUint(nil)
+				radixsort.MSDInt(nil)
+				radixsort.MSDUint(nil)
+			case isStrAlgo(algo):
+				radixsort.MSDString(nil)
+				radixsort.Quick3WayString(nil)
+			default:
+				sortElems(algo, nil, cmp)
+			}
+		}
 		switch algo {
 		case "selection", "insertion", "shell", "merge", "mergerec", "quick3way", "heap", "quickcore", "quick":
 			in, ok := parseElems(rest)
@@ -709,6 +1386,13 @@ func expectedPanic(op string) bool {
 		return false
 	}
 	switch f[0] {
+	case "gselect":
+		if len(f) < 3 {
+			return false
+		}
+		k, e1 := strconv.Atoi(f[1])
+		n, e2 := strconv.Atoi(f[2])
+		return e1 == nil && e2 == nil && (k < 0 || k >= n)
 	case "select":
 		k, err := strconv.Atoi(f[1])
 		return err == nil && (k < 0 || k >= len(f)-2)
@@ -1169,5 +1853,246 @@ func Main(run *hx.Run) {
 		// outside the precondition: a key shorter than w panics (index out of range) in the first pass
 		do(run, "lsdstring", "asc", "lsdstring 2 x6162 x61 x6364")
 		do(run, "lsdstring", "asc", "lsdstring 1 x")
+	}
+	sweeps(run)
+	subSlices(run)
+}
+
+// ---------------------------------------------------------------- threshold sweeps over the slice length
+
+var sweepSmall = []int{0, 1, 2, 63, 64, 65, 255, 256, 257, 1023, 1024, 1025}
+var sweepBig = []int{65535, 65536, 65537, 70000}
+var elemMixes = []string{"rand", "few", "eq", "asc", "desc", "saw", "organ", "big"}
+var wordMixes = []string{"full", "ext", "small", "dig", "hi", "eq", "asc", "desc"}
+var strMixes = []string{"pre", "chain", "rand", "eq"}
+var prefixLens = []int{0, 1, 2, 63, 64, 65, 255, 256, 257, 300}
+
+// sweepLimit: what a generated input of n elements in the given mix may be handed to. slow: the Go code itself is
+// quadratic there (Selection always; Insertion unless the input is sorted; the unshuffled quick sorts on inputs
+// whose first element is the smallest), so it gets at most 4097 elements (1025 in the quick tier). noModel: the Go
+// code is fast but the executable Model is not (the Models of Quick and Select run without the shuffle and are
+// quadratic on sorted inputs): oracle only. (Merge / MergeRec: the driver runs mergeBUFast / mergeRecFast, proved
+// equal to the Model's functions, which rebuild the auxiliary array on every merge.)
+func sweepLimit(algo, mix string, n int) (slow, noModel bool) {
+	sortedIn := mix == "asc" || mix == "desc" || mix == "organ"
+	switch algo {
+	case "selection":
+		slow = true
+	case "insertion":
+		slow = mix != "eq" && mix != "asc"
+	case "quickcore", "quick3way":
+		slow = sortedIn
+	case "quick", "select":
+		noModel = sortedIn && n > 4097
+	}
+	return
+}
+
+func cmpFor(mix string, i int) string {
+	if mix == "big" { // differences of keys up to 2^61 overflow: the normalised comparators only
+		return []string{"asc", "desc", "mod3"}[i%3]
+	}
+	return cmpNames[i%len(cmpNames)]
+}
+
+func sweeps(run *hx.Run) {
+	r := run.R.Fork("sweeps")
+	rot := int(run.Seed % 1000)
+	seed := func() string { return strconv.FormatUint(r.U64(), 10) }
+	maxSlow := 1025
+	if run.Thorough() {
+		maxSlow = 4097
+	}
+	// emit runs the ops that may be compared with the Model as one case and each oracle-only op as a case of its own
+	emit := func(comp, cmp string, ops []string, oracleOnly []string) {
+		if len(ops) > 0 {
+			do(run, comp, cmp, ops...)
+		}
+		for _, op := range oracleOnly {
+			run.Do(comp, hx.Case{Header: "comp=" + comp + " cmp=" + cmp, Ops: []string{op}, NoModel: true}, Exec)
+		}
+	}
+	reps := 2
+	bigSizes := []int{65536, []int{65535, 65537, 70000}[rot%3]}
+	if run.Thorough() {
+		reps = 8
+		bigSizes = sweepBig
+	}
+	// ---- comparison sorts and Select
+	for ai, algo := range append(append([]string{}, cmpAlgos...), "select") {
+		for rep := 0; rep < reps; rep++ {
+			var ops, only []string
+			var cmp string
+			add := func(n int, mix string) {
+				slow, noModel := sweepLimit(algo, mix, n)
+				if slow && n > maxSlow {
+					return
+				}
+				var op string
+				if algo == "select" {
+					k := 0
+					if n > 0 {
+						k = []int{0, n - 1, n / 2, min(n-1, 63), min(n-1, 64), min(n-1, 255), min(n-1, 256)}[(rep+n)%7]
+					}
+					op = join("gselect", strconv.Itoa(k), strconv.Itoa(n), mix, seed())
+					if n == 0 {
+						return // Select on the empty slice panics (k is never in range)
+					}
+				} else {
+					op = join("gsort", algo, strconv.Itoa(n), mix, seed())
+				}
+				if noModel {
+					only = append(only, op)
+				} else {
+					ops = append(ops, op)
+				}
+			}
+			// one mix per case (the comparator is a property of the case and `big` keys need a normalised one)
+			mix := elemMixes[(ai+rep+rot)%len(elemMixes)]
+			cmp = cmpFor(mix, ai+rep+rot)
+			for _, n := range sweepSmall {
+				add(n, mix)
+			}
+			emit(algo, cmp, ops, only)
+			ops, only = nil, nil
+			for bi, n := range bigSizes {
+				bm := mix
+				if rep == 0 && bi == 0 {
+					bm = "rand"
+				}
+				if !run.Thorough() && rep > 0 && bi > 0 {
+					continue // quick tier: 65536 in two mixes, one other size
+				}
+				add(n, bm)
+			}
+			emit(algo, cmp, ops, only)
+		}
+		if algo == "select" { // k just outside the range, at the thresholds: the panic must agree with the Model
+			for _, n := range []int{1, 64, 256, 1024, 65536} {
+				do(run, "select", "asc", join("gselect", strconv.Itoa(n), strconv.Itoa(n), "rand", seed()))
+				do(run, "select", "desc", join("gselect", "-1", strconv.Itoa(n), "few", seed()))
+			}
+		}
+	}
+	// ---- Shuffle
+	{
+		var ops []string
+		for _, n := range append(append([]int{}, sweepSmall...), bigSizes...) {
+			ops = append(ops, join("gshuffle", strconv.Itoa(n), seed()))
+		}
+		do(run, "shuffle", "asc", ops...)
+	}
+	// ---- radix sorts on machine words
+	for ai, algo := range []string{"lsduint", "lsdint", "msduint", "msdint"} {
+		for rep := 0; rep < reps; rep++ {
+			mix := wordMixes[(ai+rep+rot)%len(wordMixes)]
+			var ops []string
+			for _, n := range sweepSmall {
+				ops = append(ops, join("gsort", algo, strconv.Itoa(n), mix, seed()))
+			}
+			do(run, algo, "asc", ops...)
+			ops = nil
+			for bi, n := range bigSizes {
+				bm := mix
+				if rep == 0 && bi == 0 {
+					bm = "full" // every run: 65536 words of every bit pattern
+				}
+				if !run.Thorough() && rep > 0 && bi > 0 {
+					continue
+				}
+				ops = append(ops, join("gsort", algo, strconv.Itoa(n), bm, seed()))
+			}
+			do(run, algo, "asc", ops...)
+		}
+	}
+	// ---- radix sorts on strings: the slice length (short strings), and the length of the common prefix (40 and 10
+	// strings: above and below the insertion-sort cutoff; once 300 strings)
+	for ai, algo := range []string{"msdstring", "q3string"} {
+		for rep := 0; rep < reps; rep++ {
+			mix := strMixes[(ai+rep+rot)%len(strMixes)]
+			var ops []string
+			for _, n := range sweepSmall {
+				ops = append(ops, join("gsort", algo, strconv.Itoa(n), mix, seed(), strconv.Itoa([]int{0, 1, 3, 8}[(rep+n)%4])))
+			}
+			do(run, algo, "asc", ops...)
+			ops = nil
+			for bi, n := range bigSizes {
+				if !run.Thorough() && rep > 0 && bi > 0 {
+					continue
+				}
+				ops = append(ops, join("gsort", algo, strconv.Itoa(n), mix, seed(), strconv.Itoa([]int{2, 5, 8}[(rep+bi)%3])))
+			}
+			do(run, algo, "asc", ops...)
+			ops = nil
+			for _, L := range prefixLens {
+				ops = append(ops, join("gsort", algo, "40", mix, seed(), strconv.Itoa(L)), join("gsort", algo, "10", strMixes[(rep+L)%3], seed(), strconv.Itoa(L)))
+			}
+			ops = append(ops, join("gsort", algo, "300", "chain", seed(), "300"), join("gsort", algo, "300", "pre", seed(), "257"))
+			do(run, algo, "asc", ops...)
+		}
+	}
+	// ---- LSDString: the width w, and the slice length
+	for rep := 0; rep < reps; rep++ {
+		mix := []string{"fix", "fixlong", "eq"}[(rep+rot)%3]
+		var ops []string
+		for _, w := range prefixLens {
+			ops = append(ops, join("glsdstring", strconv.Itoa(w), strconv.Itoa(r.Range(20, 40)), mix, seed()))
+		}
+		do(run, "lsdstring", "asc", ops...)
+		ops = nil
+		for _, n := range sweepSmall {
+			ops = append(ops, join("glsdstring", strconv.Itoa(1+(rep+n)%4), strconv.Itoa(n), mix, seed()))
+		}
+		for bi, n := range bigSizes {
+			if !run.Thorough() && rep > 0 && bi > 0 {
+				continue
+			}
+			ops = append(ops, join("glsdstring", strconv.Itoa(2+rep%2), strconv.Itoa(n), mix, seed()))
+		}
+		do(run, "lsdstring", "asc", ops...)
+	}
+	run.Stats.Extra["threshold_sweeps"] = fmt.Sprintf("slice length 0/1/2, 63-65, 255-257, 1023-1025 and %v for every sort, Select and Shuffle (quadratic code paths up to %d), "+
+		"%d value mixes per sort; common prefix / key width 0/1/2, 63-65, 255-257, 300 for the string sorts", bigSizes, maxSlow, reps)
+}
+
+// ---------------------------------------------------------------- sub-slices of one backing array, sorted one after the other
+
+func subSlices(run *hx.Run) {
+	r := run.R.Fork("subslices")
+	algos := append(append([]string{}, cmpAlgos...), "lsduint", "lsdint", "msduint", "msdint", "msdstring", "q3string")
+	for _, algo := range algos {
+		for k := 0; k < run.Scale(6); k++ {
+			n := r.Range(2, 44)
+			var body string
+			switch {
+			case isWordAlgo(algo):
+				body = wordsOp(randWords(r, n), signedAlgo(algo))
+			case isStrAlgo(algo):
+				body = strsOp(randStrs(r, n, -1))
+			default:
+				body = elemsOp(randKeys(r, n))
+			}
+			var ops []string
+			for j := 0; j < 3; j++ {
+				lo := r.Intn(n)
+				hi := r.Range(lo, n)
+				if r.Chance(1, 4) {
+					lo, hi = 0, n
+				}
+				ops = append(ops, join("sub", algo, strconv.Itoa(lo), strconv.Itoa(hi), body))
+				// two sub-slices of the same array, the second sorted after the first: overlapping, or (always for the
+				// public Quick, whose order inside runs of equal elements depends on the clock) the second containing the first
+				lo1 := r.Intn(n)
+				hi1 := r.Range(lo1, n)
+				lo2 := r.Range(0, lo1)
+				hi2 := r.Range(hi1, n)
+				if algo != "quick" && r.Bool() {
+					lo2 = r.Range(lo1, hi1)
+					hi2 = r.Range(max(hi1, lo2), n)
+				}
+				ops = append(ops, join("alias", algo, strconv.Itoa(lo1), strconv.Itoa(hi1), strconv.Itoa(lo2), strconv.Itoa(hi2), body))
+			}
+			do(run, algo, cmpNames[k%len(cmpNames)], ops...)
+		}
 	}
 }
